@@ -28,7 +28,7 @@ theorem step_commenting (st : State) (op : Op) :
     (step st op).commenting = op.pendingAfter st.commenting := by
   cases op with
   | trivia c t =>
-    cases c <;> simp only [step, writeTrivia, Op.pendingAfter, pushStr, uncomment] <;>
+    cases c <;> simp only [step, writeTrivia, Op.pendingAfter, pushStr, uncomment, pushSpace] <;>
       (repeat' split) <;> simp_all
   | token t l sc r =>
     simp only [step, writeTokenContent, Op.pendingAfter, prepToken, pushStr, uncomment, pad, pushSpace]
@@ -43,7 +43,7 @@ theorem step_line (st : State) (op : Op) :
     (step st op).line = op.lineAfter st.line st.commenting := by
   cases op with
   | trivia c t =>
-    cases c <;> simp only [step, writeTrivia, Op.lineAfter, Op.fires, pushStr, uncomment] <;>
+    cases c <;> simp only [step, writeTrivia, Op.lineAfter, Op.fires, pushStr, uncomment, pushSpace] <;>
       (repeat' split) <;> simp_all
   | token t l sc r =>
     simp only [step, writeTokenContent, Op.lineAfter, prepToken, pushStr, uncomment, pad, pushSpace]
@@ -64,8 +64,8 @@ theorem step_inv (st : State) (op : Op) (h : Inv st) : Inv (step st op) := by
   unfold Inv at *
   cases op with
   | trivia c t =>
-    cases c <;> simp only [step, writeTrivia, pushStr, uncomment] <;>
-      (repeat' split) <;> simp_all [cnl_append, cnl_reverse, cnl_cons_nl] <;> omega
+    cases c <;> simp only [step, writeTrivia, pushStr, uncomment, pushSpace] <;>
+      (repeat' split) <;> simp_all [cnl_append, cnl_reverse, cnl_cons_nl, cnl_cons_sp] <;> omega
   | token t l sc r =>
     simp only [step, writeTokenContent, prepToken, pushStr, uncomment, pad, pushSpace]
     (repeat' split) <;> simp_all [cnl_append, cnl_reverse, cnl_cons_nl, cnl_cons_sp, cnl_replicate] <;> omega
@@ -92,7 +92,7 @@ one, i.e. the old output text is a prefix of the new output text. -/
 theorem step_rout (st : State) (op : Op) : st.rout <:+ (step st op).rout := by
   cases op with
   | trivia c t =>
-    cases c <;> simp only [step, writeTrivia, pushStr, uncomment] <;> (repeat' split) <;>
+    cases c <;> simp only [step, writeTrivia, pushStr, uncomment, pushSpace] <;> (repeat' split) <;>
       repeat (first | exact List.suffix_refl _ | apply suf_app | apply suf_cons)
   | token t l sc r =>
     simp only [step, writeTokenContent, prepToken, pushStr, uncomment, pad, pushSpace]
@@ -129,8 +129,8 @@ theorem step_piece_lines (st : State) (op : Op) (hp : op.isPiece = true) (hinv :
   unfold Inv at hinv
   cases op with
   | trivia c t =>
-    cases c <;> simp only [step, writeTrivia, pushStr, uncomment, Op.text] <;>
-      (repeat' split) <;> simp_all [Op.fires, cnl_append, cnl_reverse] <;> omega
+    cases c <;> simp only [step, writeTrivia, pushStr, uncomment, pushSpace, Op.text] <;>
+      (repeat' split) <;> simp_all [Op.fires, cnl_append, cnl_reverse, cnl_cons_sp] <;> omega
   | token t l sc r =>
     by_cases ht : t.isEmpty = true
     · have : t = [] := by simpa using ht
@@ -164,8 +164,8 @@ theorem step_piece_exact (st : State) (op : Op) (hp : op.isPiece = true) (hinv :
   unfold Inv at hinv
   cases op with
   | trivia c t =>
-    cases c <;> simp only [step, writeTrivia, pushStr, uncomment, Op.text, Op.endAfter] <;>
-      (repeat' split) <;> simp_all [Op.fires]
+    cases c <;> simp only [step, writeTrivia, pushStr, uncomment, pushSpace, Op.text, Op.endAfter] <;>
+      (repeat' split) <;> simp_all [Op.fires, Op.h3ok]
   | token t l sc r =>
     by_cases ht : t.isEmpty = true
     · have : t = [] := by simpa using ht
